@@ -6,7 +6,7 @@ for f in selftest/revert-*.diff; do
   prop=$(basename $f | cut -d- -f2)
   sc=$(mktemp -d /tmp/revtry.XXXXXX); rsync -a --exclude .git /repo/ $sc/
   if ! (cd $sc && patch -p1 -s --no-backup-if-mismatch < /verif/$f >/dev/null 2>&1); then echo "SKIP(conflict) $f"; rm -rf $sc; continue; fi
-  out=$(/verif/bin/govc check $prop --repo $sc --no-evidence 2>&1); rc=$?
+  out=$(${GOVC:-/verif/bin/govc} check $prop --repo $sc --no-evidence 2>&1); rc=$?
   rm -rf $sc
   if [ $rc -eq 1 ]; then ok=$((ok+1)); echo "CAUGHT $f :: $(echo "$out" | grep '^FAILED' | head -2 | cut -c1-120 | tr '\n' '|')"; else bad=$((bad+1)); echo "MISSED $f (exit $rc)"; fi
 done
